@@ -192,6 +192,12 @@ func (vc *VC) execFunc(fn *ssa.Function, args []Val, st *State, reach string, de
 	}
 	vc.curFn = append(vc.curFn, fn)
 	defer func() { vc.curFn = vc.curFn[:len(vc.curFn)-1] }()
+	var sws []string
+	if contract != nil {
+		sws = contract.Swallows
+	}
+	vc.swallowStack = append(vc.swallowStack, sws)
+	defer func() { vc.swallowStack = vc.swallowStack[:len(vc.swallowStack)-1] }()
 	vc.assumeTypeInvs(fn, args, st, reach)
 
 	// name environment for invariants
